@@ -660,10 +660,12 @@ bool same_shape(PyArrayObject* a, PyArrayObject* b) {
     return true;
 }
 
-// The kernels read elements as native C values: an array stored in the other byte order is not
-// an array they can work on (it would be processed on its byte-swapped values).
+// The kernels read elements as native C values through T* pointers and element strides: an array
+// stored in the other byte order, or one whose elements are not aligned (e.g., a field of a packed
+// record, whose byte strides are not multiples of the item size) is not an array they can work on
+// (it would be processed on byte-swapped values, or on bytes straddling two elements).
 inline
-bool are_arrays(PyArrayObject* a) { return PyArray_Check(a) && PyArray_ISNOTSWAPPED(a); }
+bool are_arrays(PyArrayObject* a) { return PyArray_Check(a) && PyArray_ISNOTSWAPPED(a) && PyArray_ISALIGNED(a); }
 inline
 bool are_arrays(PyArrayObject* a, PyArrayObject* b) { return are_arrays(a) && are_arrays(b); }
 inline
